@@ -327,6 +327,9 @@ def _reg_ode():
     def rhs(cb):
         return lambda x: cb.f(x)
 
+    op("solve_ode_ivp[y0 array, order 3, transform]", "LAA", lambda: [[-0.5, 0.5], np.array([0.5, 0.0, 1.0, 2.0]), np.array([1.0, 0.5, -0.25])],
+       lambda v, cb: (lambda s: [s(np.linspace(0.6, 1.4, 4))])(solve_ode_ivp(tuple(v[0]), rhs(cb), v[1], v[2], LinearFiniteRTransform(0.0, 2.0), rtol=1e-10, atol=1e-10)),
+       cbs=["fresh", "arg"])
     op("solve_ode_ivp", "LAL", lambda: [[0.0, 1.0], np.array([1.0, 0.5, 1.0]), [0.0, 1.0]],
        lambda v, cb: (lambda s: [s(xs)])(solve_ode_ivp(tuple(v[0]), rhs(cb), v[1], v[2], rtol=1e-10, atol=1e-10)),
        cbs=["fresh", "arg", "cached"])
@@ -346,7 +349,7 @@ def _reg_ode():
     op("solve_ode_ivp[callable coeffs]", "LL", lambda: [[0.0, 1.0], [0.0, 1.0]],
        lambda v, cb: (lambda s: [s(xs)])(solve_ode_ivp(tuple(v[0]), lambda x: np.cos(x), [lambda x: cb.f(x) + 1.0 if cb.fun() == "ident" else cb.f(x), 0.5, 1.0], v[1], rtol=1e-10, atol=1e-10)),
        cbs=["fresh", "cached"])
-    op("solve_ode_ivp[transform]", "LAL", lambda: [[-0.5, 0.5], np.array([1.0, 0.5, 1.0]), [0.0, 1.0]],
+    op("solve_ode_ivp[transform]", "LAA", lambda: [[-0.5, 0.5], np.array([1.0, 0.5, 1.0]), np.array([0.0, 1.0])],
        lambda v, cb: (lambda s: [s(np.linspace(0.6, 1.4, 4))])(solve_ode_ivp(tuple(v[0]), rhs(cb), v[1], v[2], LinearFiniteRTransform(0.0, 2.0), rtol=1e-10, atol=1e-10)),
        cbs=["fresh", "arg", "cached"])
     op("solve_ode_bvp", "AAL", lambda: [np.linspace(0.0, 1.0, 12), np.array([1.0, 0.5, 1.0]), [(0, 0, 0.0), (1, 0, 1.0)]],
